@@ -23,9 +23,9 @@ use std::sync::Arc;
 pub struct Workload {
     pub threads: Vec<Vec<Vec<i64>>>, // thread -> ops -> [code, a, b]
 }
-pub const OPS: [&str; 17] = [
+pub const OPS: [&str; 18] = [
     "create_a_same", "create_a_old_caller", "create_a_new_caller", "create_b", "call", "call_cb", "call_mk", "call_take", "shared_inc", "shared_write", "shared_read", "shared_append", "lib",
-    "create_incompatible", "lib_missing", "lib_noiface", "plain_schema",
+    "create_incompatible", "lib_missing", "lib_noiface", "plain_schema", "call_deep",
 ];
 pub fn opcode(n: &str) -> i64 {
     OPS.iter().position(|x| *x == n).unwrap_or(4) as i64
@@ -86,6 +86,9 @@ pub fn gen_workload(seed: u64, allow_lib: bool) -> Workload {
     }
     if fam_nested {
         pool.extend(["call_cb", "call_mk", "call_take"]);
+        if rng.chance(1, 3) {
+            pool.extend(["call_deep", "call_deep"]);
+        }
     }
     if rng.chance(1, 4) {
         pool.extend(["plain_schema"]);
@@ -249,6 +252,26 @@ pub fn run_thread(tid: usize, ops: &[Vec<i64>], shared: &Option<Arc<AbiConnectio
                 let c = AbiConnection::<dyn IfB>::from_boxed_trait(Box::new(ImplB)).expect("create B");
                 conns.push(Conn::B(c));
                 out.push("created B".into());
+            }
+            "call_deep" => {
+                // callbacks nested DEEP_LEVELS deep: the callback handed to `cb` calls `cb` again. With a few threads doing
+                // this at once there are many dozens of ABI calls in flight in the process, none of them deeper than
+                // DEEP_LEVELS in its own thread
+                const DEEP_LEVELS: u32 = 14;
+                const MARK: u32 = 4_000_000;
+                fn deep(c: &AbiConnection<dyn a_v0::IfA>, level: u32) -> u32 {
+                    use a_v0::IfA;
+                    if level == 0 {
+                        return 1;
+                    }
+                    // `cb` calls its closure twice: f(x), then f(result); only the marked first call goes deeper
+                    c.cb(&|v| if v == MARK + level { deep(c, level - 1).wrapping_add(level) } else { v.wrapping_add(1) }, MARK + level)
+                }
+                let idx = if conns.is_empty() { 0 } else { (a as usize) % conns.len() };
+                match conns.get(idx) {
+                    Some(Conn::A0(c)) => out.push(format!("deep {}", deep(c, DEEP_LEVELS))),
+                    _ => out.push("noop".into()),
+                }
             }
             "call" | "call_cb" | "call_mk" | "call_take" => {
                 if conns.is_empty() {
